@@ -595,7 +595,7 @@ def asof_config(rng, layouts, case):
 # ----------------------------------------------------------------------------- TLC
 def bounds(ctx):
     q = ctx.quick
-    return {"Keys": {0, 1, 2}, "MaxL": 4 if q else 5, "MaxR": 4 if q else 5, "Full": 4 if q else 5, "Mod": 160 if q else 40,
+    return {"Keys": {0, 1, 2}, "MaxL": 4 if q else 5, "MaxR": 4 if q else 5, "Full": 4 if q else 5, "Mod": 160 if q else 120,
             "Salt": ctx.rng.randrange(1000), "HeavyMod": 90 if q else 40, "MaxParts": 3,
             "CFrames": 3, "CRows": 2, "CLabels": {0, 1, 2}, "CMod": 6 if q else 1,
             "AMaxL": 3, "AMaxR": 3 if q else 4, "AKeys": {0, 1, 2} if q else {0, 1, 2, 3}, "AMod": 80 if q else 6}
@@ -668,6 +668,7 @@ def check_items(ctx, items, label, tlc_share=0.12, tlc_min=150):
     """Run the items on dask, judge them; let TLC decide the records without an exported expectation (random cases,
     together with the record pandas' own result makes) and a seeded share of the others (consistency of the replay
     judge with JoinsTrace).  -> (violations [(item, rec, clauses, strategy)], records, skips)."""
+    _freeze()
     results = pmap(_work, items, chunk=16)
     _tick(ctx, "dask runs done")
     done, skips = [], []
@@ -711,6 +712,13 @@ def check_items(ctx, items, label, tlc_share=0.12, tlc_min=150):
     return bad, done, skips
 
 
+def _freeze():
+    """Before forking: a cyclic GC in a forked worker would touch (copy) the whole inherited heap."""
+    import gc
+    gc.collect()
+    gc.freeze()
+
+
 def nontrivial(it, rec):
     obs = rec["obs"]
     return obs["raised"] == "" and sum(len(p) for p in obs["parts"]) > 0 and len(obs["parts"]) > 1
@@ -747,12 +755,12 @@ def run(ctx):
     ctx.extra["cases_enumerated_by_tlc"] = len(cases)
     q = ctx.quick
     dev = float(__import__("os").environ.get("VERIF_C39_DEV", "1"))        # development only: shrink the dask side
-    quota = {"merge:cc": 900 if q else 9000, "merge:ii": 400 if q else 4000, "merge:ii:sorted": 700 if q else 3200,
-             "merge:ic": 350 if q else 3500, "merge:ci": 350 if q else 3500,
-             "concat": 400 if q else 6000, "concat1": 120 if q else 900, "asof": 380 if q else 6000}
+    quota = {"merge:cc": 900 if q else 4500, "merge:ii": 400 if q else 2000, "merge:ii:sorted": 700 if q else 2500,
+             "merge:ic": 350 if q else 1800, "merge:ci": 350 if q else 1800,
+             "concat": 400 if q else 4000, "concat1": 120 if q else 900, "asof": 380 if q else 4000}
     quota = {k: max(20, int(v * dev)) for k, v in quota.items()}
     items = plan_items(ctx, cases, quota, 1 if q else "all")
-    items += random_items(ctx.rng, 200 if q else 5000)
+    items += random_items(ctx.rng, 200 if q else 3000)
     _tick(ctx, "planned %d items from %d cases" % (len(items), len(cases)))
     bad, done, skips = check_items(ctx, items, "recorded-calls")
     for s in skips:
@@ -793,55 +801,86 @@ def replay(ctx, obj):
 
 # ----------------------------------------------------------------------------- selftest
 def selftest(ctx):
+    import contextlib
     setup_dask(ctx)
     import dask.dataframe.dask_expr._concat as cc
     import dask.dataframe.dask_expr._merge as mm
     import dask.dataframe.dask_expr._merge_asof as ma
     import dask.dataframe.multi as multi
-    consts = dict(bounds(ctx), MaxL=3, MaxR=3, Full=3, Mod=16, HeavyMod=400, CMod=150, AMod=300)
-    cases = enumerate_cases(ctx, consts, ["merge", "concat", "concat1", "asof", "layouts"], "selftest:cases")
-    quota = {"merge:cc": 260, "merge:ii": 60, "merge:ii:sorted": 200, "merge:ic": 80, "merge:ci": 60, "concat": 160, "concat1": 40, "asof": 220}
+    rng = ctx.rng
+    consts = dict(bounds(ctx), MaxL=3, MaxR=3, Full=2, Mod=24, HeavyMod=400, CMod=11, AMod=200)
+    cases = enumerate_cases(ctx, consts, ["merge", "concat", "asof", "layouts"], "selftest:cases")
+    layouts = {c["c"]["n"]: c["e"] for c in cases if c["c"]["fam"] == "layouts"}
+    quota = {"merge:cc": 90, "merge:ii": 15, "merge:ii:sorted": 25, "merge:ic": 20, "merge:ci": 15, "concat": 25, "asof": 20}
     items = plan_items(ctx, cases, quota, 1)
+    # directed configurations: concat operands whose single-partition divisions touch; asof with the right operand cut
+    # into one-row partitions with known divisions (matches then lie in the previous partition)
+    nb = 0
+    for c in cases:
+        case, exp = c["c"], c["e"]
+        if case["fam"] == "merge" and case["mode"] == "cc" and len(case["L"]) == 3 and len(case["R"]) == 3 and nb < 30 and rng.random() < 0.1:
+            nb += 1       # broadcast=True on a join whose PRESERVED side has fewer partitions: it must not be the broadcast one
+            how = rng.choice(["left", "right"])
+            cfg = dict(merge_config(rng, layouts, case, how, exp["mask"]), broadcast=True, npart=None, api="merge", ldivs=None, rdivs=None,
+                       llay=[2, 1] if how == "left" else [1, 1, 1], rlay=[1, 1, 1] if how == "left" else [2, 1])
+            items.append(("m%d" % len(items), "merge", case, how, cfg, exp))
+        if case["fam"] == "concat" and len(items) < 290:
+            fr = case["frames"]
+            if all(f["rows"] and all(a["idx"] <= b["idx"] for a, b in zip(f["rows"], f["rows"][1:])) for f in fr) and \
+               all(fr[i]["rows"][-1]["idx"] == fr[i + 1]["rows"][0]["idx"] for i in range(len(fr) - 1)) and rng.random() < 0.5:
+                cfg = {"lays": [[len(f["rows"])] for f in fr], "divs": [[SCALE * f["rows"][0]["idx"], SCALE * f["rows"][-1]["idx"]] for f in fr],
+                       "interleave": False, "whole": False}
+                items.append(("c%d" % len(items), "concat", case, "", cfg, exp))
+        if case["fam"] == "asof" and case["mode"] == "ii" and len(case["R"]) >= 2 and rng.random() < 0.12:
+            cfg = {"llay": [len(case["L"])], "ldivs": make_divs(_labels(case["L"]), [len(case["L"])], rng),
+                   "rlay": [1] * len(case["R"]), "rdivs": make_divs(_labels(case["R"]), [1] * len(case["R"]), rng), "whole": False}
+            if cfg["rdivs"] is not None:
+                items.append(("a%d" % len(items), "asof", case, "", cfg, exp))
 
-    def outcome():
-        """signatures of the violations of the (possibly mutated) code on the item set, known findings excluded."""
-        results = pmap(_work, items, chunk=8)
+    del cases
+    _freeze()
+
+    def outcome(fams):
+        """signatures of the violations of the (possibly mutated) code on the items of the given families, known findings excluded."""
+        sub = [it for it in items if it[1] in fams]
+        results = pmap(_work, sub, chunk=8)
         sigs = {}
-        for it, res in zip(items, results):
+        for it, res in zip(sub, results):
             if "guard" in res:
                 raise MachineryError("reference guard in selftest: %s" % res["guard"])
             if "rec" in res and res["clauses"]:
                 s = classify(it[1], it[2], it[3], it[4], res["strategy"], res["clauses"], res["rec"]["obs"])
                 if s not in ctx.known:
                     sigs[s] = sigs.get(s, 0) + 1
-        return sigs
+        return sigs, len(sub)
 
     ok = True
-    base = outcome()
-    print("selftest C39 baseline (unmutated code, %d cases): violations outside known findings %s -> %s" % (len(items), base, "ok" if not base else "UNEXPECTED"))
+    base, n = outcome({"merge", "concat", "asof"})
+    print("selftest C39 baseline (unmutated code, %d cases): violations outside known findings %s -> %s" % (n, base, "ok" if not base else "UNEXPECTED"))
     ok &= not base
     semi = mutate(multi.merge_chunk, "rhs = rhs.drop_duplicates()", "pass")
+    padded = mutate(multi.merge_asof_padded, "if prev is not None:\n        frames.append(prev)", "if prev is not None:\n        pass")
     mutants = [
-        ("merge_chunk: leftsemi no longer de-duplicates the right keys (lowered as inner)", [(multi, "merge_chunk", semi), (mm, "merge_chunk", semi)]),
-        ("Merge.is_broadcast_join: condition `how != broadcast_side` dropped (the preserved side gets broadcast)",
+        ("merge_chunk: leftsemi no longer de-duplicates the right keys (lowered as inner)", {"merge"},
+         [(multi, "merge_chunk", semi), (mm, "merge_chunk", semi)]),
+        ("Merge.is_broadcast_join: condition `how != broadcast_side` dropped (the preserved side gets broadcast)", {"merge"},
          [(mm.Merge, "is_broadcast_join", mutate(vars(mm.Merge)["is_broadcast_join"], "and self.how != broadcast_side", ""))]),
-        ("Merge._lower: the right operand is shuffled to one partition too few (npartitions_out=shuffle_npartitions - 1 ... max 1)",
+        ("Merge._lower: the right operand is shuffled to one partition too few (npartitions_out=max(shuffle_npartitions - 1, 1))", {"merge"},
          [(mm.Merge, "_lower", mutate(vars(mm.Merge)["_lower"],
                                       "right,\n            shuffle_right_on,\n            npartitions_out=shuffle_npartitions,",
                                       "right,\n            shuffle_right_on,\n            npartitions_out=max(shuffle_npartitions - 1, 1),"))]),
-        ("Concat._monotonic_divisions: `<` -> `<=` (touching divisions are chained)",
+        ("Concat._monotonic_divisions: `<` -> `<=` (touching divisions are chained)", {"concat"},
          [(cc.Concat, "_monotonic_divisions", mutate(vars(cc.Concat)["_monotonic_divisions"], "dfs[i].divisions[-1] < dfs[i + 1].divisions[0]",
                                                      "dfs[i].divisions[-1] <= dfs[i + 1].divisions[0]"))]),
-        ("most_recent_tail: keeps the older tail (`return right.tail(1)` -> `return left if len(left.index) else right.tail(1)`)",
-         [(ma, "most_recent_tail", mutate(ma.most_recent_tail, "return right.tail(1)", "return left if len(left.index) else right.tail(1)"))]),
+        ("merge_asof_padded: the tail of the previous right partitions is no longer prepended", {"asof"},
+         [(multi, "merge_asof_padded", padded), (ma, "merge_asof_padded", padded)]),
     ]
-    for name, patches in mutants:
-        import contextlib
+    for name, fams, patches in mutants:
         with contextlib.ExitStack() as st:
             for target, attr, mut in patches:
                 st.enter_context(patched_attr([target], attr, mut))
-            got = outcome()
-        print("selftest C39 mutant [%s]: violations %s -> %s" % (name, dict(sorted(got.items())[:4]), "DETECTED" if got else "MISSED"))
+            got, n = outcome(fams)
+        print("selftest C39 mutant [%s] (%d cases): violations %s -> %s" % (name, n, dict(sorted(got.items())[:4]), "DETECTED" if got else "MISSED"))
         ok &= bool(got)
     # corrupted / truncated records must be rejected by the trace specification
     case = {"fam": "merge", "mode": "cc", "L": [{"rid": i + 1, "idx": i, "k": k} for i, k in enumerate([0, 1, NA, 1])],
